@@ -56,6 +56,11 @@ def gen_values(rng, n):
             k = rng.randrange(n)
             if k != keep:
                 v[k] = math.nan
+    if rng.random() < 0.2:
+        # metrics measured on very different scales (error rates near 1e-5, counts near 1e3): the limits are
+        # equivariant, so nothing in the formulas may depend on an absolute magnitude (powers of two: exact)
+        k = rng.choice([2.0 ** -17, 2.0 ** -20, 2.0 ** -26, 2.0 ** 10])
+        v = [x * k for x in v]
     if rng.random() < 0.04:
         v = [math.nan] * n  # no finite replicate at all: limits must be NaN (all three methods)
     return v
@@ -139,7 +144,7 @@ def build(inp) -> Case:
         pre.append(Issue("PROPFAIL", "shape", f"shape {ci.shape} for metric shape {yshape}", "bootci/shape"))
         return Case(ID, inp, [], lambda outs: [], (method,), 0, pre)
     cif = ci.reshape(ncomp, 2)
-    scale = max([1.0] + [abs(x) for c in cols for x in c if not math.isnan(x)])
+    scale = max([abs(x) for c in cols for x in c if not math.isnan(x)] + [abs(float(t)) for t in inp["th"]] + [0.0]) or 1.0
     tol = 1e-9 * scale
 
     def same(a, b, what, sig):
@@ -175,7 +180,7 @@ def build(inp) -> Case:
         pre.append(Issue("PROPFAIL", "affine", f"raised on affine image: {rf[1]}", "bootci/affine"))
     else:
         a_ = np.asarray(rf[1], dtype=float)
-        if not np.allclose(a_, c_ * ci + d_, rtol=1e-7, atol=1e-7 * scale * c_ + 1e-9, equal_nan=True):
+        if not np.allclose(a_, c_ * ci + d_, rtol=1e-7, atol=1e-7 * scale * c_ + 1e-12 * abs(d_), equal_nan=True):
             pre.append(Issue("PROPFAIL", "affine", f"limits of {c_}*theta+{d_}: {a_.tolist()} vs {(c_*ci+d_).tolist()} (method {method})", "bootci/affine"))
     # per component
     if ncomp > 1:
@@ -205,7 +210,7 @@ def build(inp) -> Case:
         s2 = float(np.nansum((col - inp["th"][j]) ** 2))
         p15 = float(s2 ** 1.5)
         return line("bootci", vals="[" + ",".join(_orat(x) for x in cols[j]) + "]", th=q(inp["th"][j]),
-                    alpha=q(alpha), method=method, eps=q(Fraction(tol) + Fraction(1, 10**9)),
+                    alpha=q(alpha), method=method, eps=q(Fraction(tol)),
                     ppf_in=_erat_list(tables["ppf_in"]), ppf_out=_erat_list(tables["ppf_out"]),
                     cdf_in=_erat_list(tables["cdf_in"]), cdf_out=_erat_list(tables["cdf_out"]),
                     p15_in=_erat_list([s2]), p15_out=_erat_list([p15]),
